@@ -39,6 +39,125 @@ type tfCase struct {
 	Colls   int        `json:"colls"`
 	Feeds   []tfFeed   `json:"feeds"`
 	Actions []tfAction `json:"actions"`
+	Mid     *tfMid     `json:"mid,omitempty"` // instead of Feeds/Actions: a feed stopped in the middle of a delivery
+}
+
+// tfMid: a feed over a collection with Docs documents is held inside its callback at event number
+// HoldAt (more events queued behind it), its terminator is closed there, and the callback is let go.
+type tfMid struct {
+	Docs    int  `json:"docs"`
+	HoldAt  int  `json:"holdAt"`
+	Dump    bool `json:"dump"` // a dump feed (ends by itself after the backfill) or a live one
+	Live    int  `json:"live"` // live feed: writes made after the start (queued behind the held event)
+	C       int  `json:"c"`
+	H       int  `json:"h"`
+	Sibling bool `json:"sibling"` // a second live feed on the same collection that must keep running
+}
+
+func runMidStop(c tfCase) (res shutResult) {
+	m := c.Mid
+	bad := func(clause, f string, a ...any) {
+		res.Devs = append(res.Devs, Deviation{Clause: clause, Props: []string{"C16"}, Sig: clause, Msg: fmt.Sprintf(f, a...) + fmt.Sprintf(" (log: %v)", res.Log)})
+	}
+	logf := func(f string, a ...any) { res.Log = append(res.Log, fmt.Sprintf(f, a...)) }
+	w, err := NewWorld(Config{Disk: c.Disk, Handles: c.Handles, Colls: allCollNames[:c.Colls]})
+	if err != nil {
+		bad("tf.setup", "%v", err)
+		return
+	}
+	defer w.Close()
+	ds := w.Coll(m.H%c.Handles, m.C%c.Colls)
+	for i := 0; i < m.Docs; i++ {
+		_ = ds.Set(fmt.Sprintf("d%03d", i), 0, nil, []byte(fmt.Sprintf(`{"i":%d}`, i)))
+	}
+	var sib *Collector
+	if m.Sibling {
+		sib, err = w.startFeed(FeedCfg{H: (m.H + 1) % c.Handles, C: m.C % c.Colls}, sgbucket.FeedNoBackfill, false, "")
+		if err != nil {
+			bad("tf.start", "sibling feed: %v", err)
+			return
+		}
+	}
+	var nDocEvents, afterRelease, afterDone atomic.Int64
+	held := make(chan struct{})
+	release := make(chan struct{})
+	term := make(chan bool)
+	done := make(chan struct{})
+	var doneClosed, released atomic.Bool
+	go func() { <-done; doneClosed.Store(true) }()
+	args := sgbucket.FeedArguments{ID: "mid", Backfill: 0, Dump: m.Dump, Terminator: term, DoneChan: done}
+	cb := func(ev sgbucket.FeedEvent) bool {
+		if doneClosed.Load() {
+			afterDone.Add(1)
+		}
+		if ev.Opcode != sgbucket.FeedOpMutation && ev.Opcode != sgbucket.FeedOpDeletion {
+			return true
+		}
+		n := nDocEvents.Add(1)
+		if released.Load() {
+			afterRelease.Add(1)
+		}
+		if int(n) == m.HoldAt {
+			close(held)
+			<-release
+			released.Store(true)
+		}
+		return true
+	}
+	if err := w.RColl(m.H%c.Handles, m.C%c.Colls).StartDCPFeed(ctx, args, cb, nil); err != nil {
+		bad("tf.start", "StartDCPFeed failed: %v", err)
+		return
+	}
+	if !m.Dump {
+		for i := 0; i < m.Live; i++ {
+			_ = ds.Set(fmt.Sprintf("l%03d", i), 0, nil, []byte(`{"l":1}`))
+		}
+	}
+	select {
+	case <-held:
+	case <-time.After(10 * time.Second):
+		bad("tf.setup", "the feed never delivered event %d of %d", m.HoldAt, m.Docs+m.Live)
+		return
+	}
+	queued := int64(m.Docs) - int64(m.HoldAt)
+	if !m.Dump {
+		queued += int64(m.Live)
+	}
+	close(term)
+	logf("terminator closed while the callback is held at event %d (%d more queued)", m.HoldAt, queued)
+	time.Sleep(30 * time.Millisecond)
+	close(release)
+	select {
+	case <-done:
+	case <-time.After(5 * time.Second):
+		bad("tf.notended", "a %s feed whose terminator was closed in the middle of a delivery did not close its done channel", ifelse(m.Dump, "dump", "live"))
+	}
+	time.Sleep(50 * time.Millisecond)
+	res.InFlight = queued > 1
+	// the event that was already being delivered is finished; one more that had already been taken
+	// from the queue is tolerated; the rest must not be delivered to a feed that was told to end
+	if n := afterRelease.Load(); n > 1 {
+		bad("tf.afterterm", "the callback of a %s feed was invoked %d more times after its terminator had been closed (of %d events still queued at that moment): closing the terminator did not end the feed", ifelse(m.Dump, "dump", "live"), n, queued)
+	}
+	if n := afterDone.Load(); n > 0 {
+		bad("tf.afterdone", "the callback was invoked %d times after the done channel had closed", n)
+	}
+	if sib != nil {
+		_ = ds.SetRaw(sentinelPrefix, 0, nil, []byte("s"))
+		_, cas, _ := ds.GetRaw(sentinelPrefix)
+		if !sib.waitCas(cas, 10*time.Second) {
+			bad("tf.starved", "a second feed on the same collection did not receive a write made after the first feed was ended")
+		}
+		sib.Stop()
+	}
+	return
+}
+
+func ifelse(c bool, a, b string) string {
+	if c {
+		return a
+	}
+	return b
 }
 
 type tfState struct {
@@ -50,6 +169,9 @@ type tfState struct {
 }
 
 func runFeedScenario(c tfCase) (res shutResult) {
+	if c.Mid != nil {
+		return runMidStop(c)
+	}
 	c16 := []string{"C16"}
 	bad := func(clause, f string, a ...any) {
 		res.Devs = append(res.Devs, Deviation{Clause: clause, Props: c16, Sig: clause, Msg: fmt.Sprintf(f, a...) + fmt.Sprintf(" (log: %v)", res.Log)})
@@ -337,6 +459,13 @@ func runFeedChild(c tfCase) (shutResult, error) {
 
 func genFeedCase(rt *rapid.T) tfCase {
 	c := tfCase{Disk: chance(rt, 45, "disk"), Handles: rapid.IntRange(1, 3).Draw(rt, "handles"), Colls: rapid.IntRange(2, 3).Draw(rt, "colls")}
+	if chance(rt, 25, "mid") {
+		m := &tfMid{Docs: rapid.IntRange(1, 40).Draw(rt, "mid.docs"), Dump: chance(rt, 50, "mid.dump"), Live: rapid.IntRange(0, 10).Draw(rt, "mid.live"),
+			C: rapid.IntRange(0, c.Colls-1).Draw(rt, "mid.c"), H: rapid.IntRange(0, c.Handles-1).Draw(rt, "mid.h"), Sibling: chance(rt, 40, "mid.sibling")}
+		m.HoldAt = rapid.IntRange(1, m.Docs).Draw(rt, "mid.holdAt")
+		c.Mid = m
+		return c
+	}
 	nf := rapid.IntRange(1, 4).Draw(rt, "nfeeds")
 	for i := 0; i < nf; i++ {
 		f := tfFeed{H: rapid.IntRange(0, c.Handles-1).Draw(rt, "feed.h"), C: rapid.IntRange(0, c.Colls-1).Draw(rt, "feed.c")}
@@ -354,7 +483,7 @@ func genFeedCase(rt *rapid.T) tfCase {
 
 func TestC16(t *testing.T) {
 	st := statsFor("C16", "TestC16")
-	st.Rule = "each generated configuration runs in a child process: 1-3 handles x 2-3 collections x 1-4 feeds (live, dump, multi-collection) started through generated handles, then generated orders of terminator closes, collection drops through any handle, handle closes (first / last) and bucket deletion, with writes in between; after every action each feed that must have ended (terminator, dump, its collection dropped, bucket deleted, last handle of an on-disk bucket closed) must have closed its done channel, every other feed must still receive a write made through a surviving handle to each of its collections; no callback after done, no second close of a done channel (would panic), no feed goroutine after store shutdown; non-trivial = the handle that ends something differs from the handle that started the affected feed, or a sibling feed must survive the action; distinct by configuration"
+	st.Rule = "each generated configuration runs in a child process: 1-3 handles x 2-3 collections x 1-4 feeds (live, dump, multi-collection) started through generated handles, then generated orders of terminator closes, collection drops through any handle, handle closes (first / last) and bucket deletion, with writes in between; after every action each feed that must have ended (terminator, dump, its collection dropped, bucket deleted, last handle of an on-disk bucket closed) must have closed its done channel, every other feed must still receive a write made through a surviving handle to each of its collections; no callback after done, no second close of a done channel (would panic), no feed goroutine after store shutdown; a quarter of the cases instead hold a dump / live feed inside its callback at a generated event with more events queued, close its terminator there and let go: the feed must end without delivering the queued events (one already taken from the queue is tolerated) while a sibling feed keeps running; non-trivial = the handle that ends something differs from the handle that started the affected feed, or a sibling feed must survive the action; distinct by configuration"
 	if replayMode() {
 		rp := loadReplay("TestC16")
 		if rp == nil {
@@ -397,8 +526,8 @@ func TestC16(t *testing.T) {
 				rt.Fatalf("INFRA: %v", errs[i])
 			}
 			b, _ := json.Marshal(cases[i])
-			nt := false
 			c := cases[i]
+			nt := c.Mid != nil && res.InFlight
 			for _, a := range c.Actions {
 				if a.Do == "drop" || a.Do == "close" || a.Do == "delete" {
 					for _, f := range c.Feeds {
